@@ -789,3 +789,72 @@ pub fn burst(case: &crate::prog::Burst, ctx: &mut CaseCtx) -> Result<(), Fail> {
     }
     Ok(())
 }
+
+
+/// Part `auto`: with auto-checkpoints on, every destructive statement takes a checkpoint first.
+/// Whatever creates a checkpoint, the retention limit holds after every statement and the list is
+/// newest first (validity predicates; which statements count as destructive is read off the list).
+pub fn auto(case: &crate::prog::AutoCase, ctx: &mut CaseCtx) -> Result<(), Fail> {
+    use crate::prog::AutoOp;
+    let max = case.max_cp as usize;
+    let mut w = World::new_auto(max)?;
+    ctx.label(format!("limit:{max}"));
+    let setup = [
+        "CREATE TABLE t (id INT, v INT)".to_string(),
+        "INSERT INTO t (id, v) VALUES (0, 0), (1, 1), (2, 2), (3, 3), (4, 4), (5, 5), (6, 6), (7, 7)".to_string(),
+    ];
+    for st in &setup {
+        w.exec(st).map_err(|e| Fail::new("setup-failed", format!("{st}: {e}")))?;
+    }
+    let mut nodes: Vec<u64> = Vec::new();
+    for i in 0..6 {
+        if let Ok(QueryResult::Ids(ids)) = w.exec(&format!("NODE CREATE person {{n: {i}}}")) {
+            nodes.extend(ids);
+        }
+        let _ = w.exec(&format!("EMBED STORE 'e{i}' [1.00, {i}.00, 0.00]"));
+    }
+    let mut created = 0usize; // checkpoints seen appearing (auto or manual)
+    let mut autos = 0usize;
+    let mut prev: Vec<(String, u64)> = list_checkpoints(&mut w).map_err(|e| Fail::new("checkpoints-listing-failed:auto", e))?;
+    for (k, op) in case.ops.iter().enumerate() {
+        let texts: Vec<String> = match op {
+            AutoOp::DeleteRow(i) => vec![format!("DELETE FROM t WHERE id = {i}")],
+            AutoOp::DeleteNode(i) => match nodes.get(*i as usize) {
+                Some(id) => vec![format!("NODE DELETE {id}")],
+                None => vec![],
+            },
+            AutoOp::DeleteEmb(i) => vec![format!("EMBED DELETE 'e{i}'")],
+            AutoOp::DropTable(i) => vec![format!("CREATE TABLE d{i} (id INT)"), format!("DROP TABLE d{i}")],
+            AutoOp::Manual => vec![format!("CHECKPOINT 'm{k}'")],
+            AutoOp::Insert(i) => vec![format!("INSERT INTO t (id, v) VALUES ({}, {k})", 100 + u32::from(*i))],
+        };
+        for text in texts {
+            let _ = w.exec(&text);
+            let now = list_checkpoints(&mut w).map_err(|e| Fail::new("checkpoints-listing-failed:auto", e))?;
+            if now.len() > max {
+                return ctx.fail(
+                    "retention:limit-exceeded:auto",
+                    format!("after `{text}` CHECKPOINTS lists {} checkpoints {:?} with max_checkpoints = {max}", now.len(), now.iter().map(|c| c.0.as_str()).collect::<Vec<_>>()),
+                );
+            }
+            if now.windows(2).any(|p| p[0].1 < p[1].1) {
+                return ctx.fail("retention:list-not-most-recent-first:auto", format!("after `{text}` CHECKPOINTS lists creation seconds {:?}", now.iter().map(|c| c.1).collect::<Vec<_>>()));
+            }
+            if now != prev {
+                created += 1;
+                if now.first().is_some_and(|c| c.0.starts_with("auto")) {
+                    autos += 1;
+                }
+            }
+            prev = now;
+        }
+    }
+    if autos > 0 {
+        ctx.label("auto-checkpoint taken");
+    }
+    if created > max && autos > 0 {
+        ctx.label("more checkpoints than the limit, some of them automatic");
+        ctx.set_nontrivial();
+    }
+    Ok(())
+}
